@@ -22,7 +22,7 @@ use serde_json::json;
 use std::collections::{BTreeMap, VecDeque};
 
 const YEAR: u128 = 60 * 60 * 24 * 365;
-const DENOM: &str = "TOKEN";
+const DENOMS: [&str; 3] = ["TOKEN", "ustake", "atom"];
 const NS: u64 = 1_000_000_000;
 /// stakes are tracked in units of 10^-15 token (<= 5 slashes per validator with <= 3 decimals each)
 const XS: u128 = 1_000_000_000_000_000;
@@ -91,6 +91,9 @@ pub struct Case {
     pub apr: u32,
     pub unbonding_secs: u64,
     pub init_balance: u64,
+    /// bonded denomination: 0 the default "TOKEN", otherwise a configured one
+    #[serde(default)]
+    pub bonded: u8,
     pub ops: Vec<SOp>,
 }
 
@@ -140,6 +143,7 @@ const P16: &str = "C16";
 
 pub struct Run {
     pub app: SimApp,
+    denom: String,
     addrs: Vec<String>,      // delegators + extra accounts
     validators: Vec<String>, // real validators
     contract0: bool,
@@ -177,11 +181,11 @@ impl Run {
     }
 
     fn balance(&self, addr: &str) -> u128 {
-        self.app.wrap().query_balance(addr.to_string(), DENOM).map(|c| c.amount.u128()).unwrap_or(u128::MAX)
+        self.app.wrap().query_balance(addr.to_string(), self.denom.clone()).map(|c| c.amount.u128()).unwrap_or(u128::MAX)
     }
 
     fn supply(&self) -> u128 {
-        self.app.wrap().query_supply(DENOM).map(|c| c.amount.u128()).unwrap_or(u128::MAX)
+        self.app.wrap().query_supply(self.denom.clone()).map(|c| c.amount.u128()).unwrap_or(u128::MAX)
     }
 
     /// (shown delegation, pending reward shown) of a pair with one delegation query; the keeper's own
@@ -189,7 +193,7 @@ impl Run {
     fn view(&self, d: usize, v: usize) -> Result<(u128, u128), String> {
         match self.app.wrap().query_delegation(self.addrs[d].clone(), self.validators[v].clone()) {
             Ok(Some(fd)) => {
-                let pending = fd.accumulated_rewards.iter().filter(|c| c.denom == DENOM).map(|c| c.amount.u128()).sum();
+                let pending = fd.accumulated_rewards.iter().filter(|c| c.denom == self.denom).map(|c| c.amount.u128()).sum();
                 Ok((fd.amount.amount.u128(), pending))
             }
             Ok(None) => {
@@ -249,7 +253,7 @@ impl Run {
     }
 
     fn to_cosmos(&self, d: usize, m: &StakeMsg) -> (CosmosMsg<SimMsg>, MsgSpec) {
-        let den = |foreign: bool| if foreign { "denom1".to_string() } else { DENOM.to_string() };
+        let den = |foreign: bool| if foreign { "denom1".to_string() } else { self.denom.clone() };
         match m {
             StakeMsg::Delegate { v, amt, foreign } => {
                 let a = self.resolve_amt(d, *v, amt);
@@ -943,7 +947,8 @@ pub fn build(case: &Case) -> Run {
     let mut names = Names { prefix: prefix.to_string(), ..Default::default() };
     names.accounts = addrs.clone();
     names.ghosts = (0..4).map(|i| api.addr_make(&format!("ghost{}", i)).to_string()).collect();
-    names.denoms = vec![DENOM.to_string(), "denom1".to_string()];
+    let denom = DENOMS[case.bonded as usize % DENOMS.len()].to_string();
+    names.denoms = vec![denom.clone(), "denom1".to_string()];
     names.validators = validators.clone();
     world.0.borrow_mut().names = names;
     let apr = case.apr.min(10_000);
@@ -953,6 +958,7 @@ pub fn build(case: &Case) -> Run {
     let addrs2 = addrs.clone();
     let vals2 = validators.clone();
     let comm2 = commissions.clone();
+    let denom2 = denom.clone();
     let maxc2: Vec<u32> = (0..nv).map(|i| case.max_commissions.get(i).copied().unwrap_or(10_000).min(10_000)).collect();
     let mut app: SimApp = BasicAppBuilder::<SimMsg, SimQuery>::new_custom()
         .with_api(api)
@@ -967,12 +973,12 @@ pub fn build(case: &Case) -> Run {
         .with_stargate(RecStargate { world: world.clone(), inner: StargateInner::Stub })
         .build(|router, api, storage| {
             for a in addrs2.iter().take(nd) {
-                router.bank.inner.init_balance(storage, &Addr::unchecked(a.clone()), vec![coin(init, DENOM), coin(1000, "denom1")]).unwrap();
+                router.bank.inner.init_balance(storage, &Addr::unchecked(a.clone()), vec![coin(init, denom2.clone()), coin(1000, "denom1")]).unwrap();
             }
             router
                 .staking
                 .inner
-                .setup(storage, StakingInfo { bonded_denom: DENOM.to_string(), unbonding_time: unbonding, apr: Decimal::from_ratio(apr, 10_000u128) })
+                .setup(storage, StakingInfo { bonded_denom: denom2.clone(), unbonding_time: unbonding, apr: Decimal::from_ratio(apr, 10_000u128) })
                 .unwrap();
             let block = mock_env().block;
             for (i, v) in vals2.iter().enumerate() {
@@ -993,7 +999,7 @@ pub fn build(case: &Case) -> Run {
         let owner = Addr::unchecked(addrs[0].clone());
         let id = app.store_code_with_creator(owner.clone(), code);
         let node = Node { nid: 1, bind: Some(0), ..Default::default() };
-        if let Ok(c) = app.instantiate_contract(id, owner.clone(), &node, &[coin(init, DENOM)], "delegator-contract", None) {
+        if let Ok(c) = app.instantiate_contract(id, owner.clone(), &node, &[coin(init, denom.clone())], "delegator-contract", None) {
             // the replaced plain account keeps nothing of the staking denomination and is not used further
             addrs[0] = c.to_string();
             world.0.borrow_mut().names.accounts[0] = c.to_string();
@@ -1006,6 +1012,7 @@ pub fn build(case: &Case) -> Run {
     let now = mock_env().block.time.nanos();
     Run {
         app,
+        denom,
         addrs,
         validators,
         contract0,
@@ -1195,6 +1202,7 @@ impl Engine for StakeSim {
             apr,
             unbonding_secs,
             init_balance: *rng.pick(&[10u64, 1000, 100_000, 1_000_000_000]),
+            bonded: if rng.chance(1, 3) { 1 + rng.below(2) as u8 } else { 0 },
             ops,
         }
     }
